@@ -172,6 +172,83 @@ def gm_line(p, t, af, scope, comps=None):
     return 'GM ' + ' '.join(map(str, out)), any(rows[0]) if rows else False
 
 
+def L(xs):
+    xs = list(xs)
+    return [len(xs)] + xs
+
+
+def enc_patom(a):
+    """pattern atom attributes (never the result of a comparison); None if the class is not one the model knows"""
+    from chython.periodictable import AnyElement, AnyMetal, ListElement, QueryElement, Element
+    if isinstance(a, Element):
+        return [0, a.atomic_number, -1 if a.isotope is None else a.isotope, a.charge, int(a.is_radical)]
+    if isinstance(a, AnyMetal):
+        return [4, 0, 0] + L(a.neighbors) + L(a.hybridization) + [0, 0, 0]
+    if isinstance(a, AnyElement):
+        head = [2]
+    elif isinstance(a, ListElement):
+        head = [3] + L(a.atomic_numbers)
+    elif isinstance(a, QueryElement):
+        head = [1, a.atomic_number, -1 if a.isotope is None else a.isotope]
+    else:
+        return None
+    return head + [a.charge, int(a.is_radical)] + L(a.neighbors) + L(a.hybridization) + L(a.ring_sizes) \
+        + L(a.implicit_hydrogens) + L(a.heteroatoms)
+
+
+def enc_tatom(a):
+    h = a.implicit_hydrogens
+    return [a.atomic_number, -1 if a.isotope is None else a.isotope, a.charge, int(a.is_radical), a.neighbors, a.hybridization] \
+        + L(sorted(a.ring_sizes)) + [-1 if h is None else h, a.heteroatoms]
+
+
+def enc_pbond(b):
+    from chython.containers.bonds import Bond, QueryBond
+    if isinstance(b, QueryBond):
+        r = b.in_ring
+        return [1] + L(b.order) + [-1 if r is None else int(bool(r))]
+    if isinstance(b, Bond):
+        return [0, b.order]
+    return None
+
+
+def ga_line(p, t, af, scope):
+    """attribute mode: the Lean side evaluates `q_atom == t_atom` / `q_bond == t_bond` itself (Model/IsoCompat + Model/QueryEq)"""
+    from chython.containers.bonds import Bond
+    out = [int(bool(af))]
+    if scope is None:
+        out.append(-1)
+    else:
+        sc = list(dict.fromkeys(scope))
+        out += [len(sc)] + sc
+    out += graph_ints(list(p._atoms), p._bonds)
+    out += graph_ints(list(t._atoms), t._bonds)
+    comps = [sorted(c) for c in t.connected_components]
+    out.append(len(comps))
+    for c in comps:
+        out += [len(c)] + c
+    for a in p._atoms.values():
+        e = enc_patom(a)
+        if e is None:
+            return None
+        out += e
+    for a in t._atoms.values():
+        out += enc_tatom(a)
+    pb, tb = bond_list(p), bond_list(t)
+    out.append(len(pb))
+    for u, v, b in pb:
+        e = enc_pbond(b)
+        if e is None:
+            return None
+        out += [u, v] + e
+    out.append(len(tb))
+    for x, y, b in tb:
+        if not isinstance(b, Bond):
+            return None
+        out += [x, y, b.order, int(bool(b.in_ring))]
+    return 'GA ' + ' '.join(map(str, out))
+
+
 def parse_dicts(body):
     body = body.strip()
     if not body:
@@ -218,6 +295,109 @@ def own_components(bonds):
     return comp
 
 
+NOT_METAL = {1, 2, 5, 6, 7, 8, 9, 10, 14, 15, 16, 17, 18, 32, 33, 34, 35, 36, 51, 52, 53, 54, 85, 86, 118}
+# written from the periodic table: the elements that form ordinary covalent single bonds (H B C N O F Si P S Cl Ge As Se Br
+# Sb Te I At) and the noble gases; everything else is a "metal" for the `M` query atom
+
+
+class Independent:
+    """Atom / bond compatibility judged WITHOUT calling any `__eq__` of the library: from the documented meaning of the
+    query attributes and from attributes of the target recomputed here (neighbour / heteroatom counts, hybridisation, ring
+    membership of bonds = the bond lies on a cycle). Ring sizes of atoms and implicit hydrogens are read as labels."""
+
+    def __init__(self, t):
+        self.t = t
+        bonds = t._bonds
+        self.adj = {n: [m for m, b in ms.items() if b.order != 8] for n, ms in bonds.items()}
+        self._ring = {}
+        self._attrs = {}
+
+    def bond_in_ring(self, x, y):
+        key = (x, y) if x < y else (y, x)
+        if key not in self._ring:
+            if self.t._bonds[x][y].order == 8:
+                self._ring[key] = False
+            else:
+                seen, st, found = {x}, [x], False
+                while st and not found:
+                    a = st.pop()
+                    for b in self.adj[a]:
+                        if {a, b} == {x, y}:
+                            continue
+                        if b == y:
+                            found = True
+                            break
+                        if b not in seen:
+                            seen.add(b)
+                            st.append(b)
+                self._ring[key] = found
+        return self._ring[key]
+
+    def attrs(self, x):
+        if x not in self._attrs:
+            atoms, bonds = self.t._atoms, self.t._bonds
+            a = atoms[x]
+            orders = [b.order for b in bonds[x].values() if b.order != 8]
+            if 4 in orders:
+                hyb = 4
+            elif 3 in orders or orders.count(2) >= 2:
+                hyb = 3
+            elif orders.count(2) == 1:
+                hyb = 2
+            else:
+                hyb = 1
+            nb = [m for m, b in bonds[x].items() if b.order != 8]
+            self._attrs[x] = dict(z=a.atomic_number, isotope=a.isotope, charge=a.charge, radical=a.is_radical,
+                                  neighbors=len(nb), hetero=sum(1 for m in nb if atoms[m].atomic_number not in (1, 6)),
+                                  hyb=hyb, h=a.implicit_hydrogens, rings=set(a.ring_sizes))
+        return self._attrs[x]
+
+    def atom(self, pa, x):
+        from chython.periodictable import AnyElement, AnyMetal, ListElement, QueryElement, Element
+        ta = self.attrs(x)
+        if isinstance(pa, Element):
+            return (pa.atomic_number == ta['z'] and pa.isotope == ta['isotope'] and pa.charge == ta['charge']
+                    and pa.is_radical == ta['radical'])
+        if pa.neighbors and ta['neighbors'] not in pa.neighbors:
+            return False
+        if pa.hybridization and ta['hyb'] not in pa.hybridization:
+            return False
+        if isinstance(pa, AnyMetal):
+            return ta['z'] not in NOT_METAL
+        if isinstance(pa, ListElement):
+            if ta['z'] not in pa.atomic_numbers:
+                return False
+        elif isinstance(pa, QueryElement):
+            if pa.atomic_number != ta['z']:
+                return False
+            if pa.isotope and pa.isotope != ta['isotope']:
+                return False
+        elif not isinstance(pa, AnyElement):
+            raise TypeError('pattern atom class outside the oracle')
+        if pa.charge != ta['charge'] or pa.is_radical != ta['radical']:
+            return False
+        if pa.ring_sizes:
+            if pa.ring_sizes[0] == 0:
+                if ta['rings']:
+                    return False
+            elif not (set(pa.ring_sizes) & ta['rings']):
+                return False
+        if pa.implicit_hydrogens and ta['h'] not in pa.implicit_hydrogens:
+            return False
+        if pa.heteroatoms and ta['hetero'] not in pa.heteroatoms:
+            return False
+        return True
+
+    def bond(self, pb, x, y):
+        from chython.containers.bonds import QueryBond
+        tb = self.t._bonds[x][y]
+        if isinstance(pb, QueryBond):
+            if tb.order not in pb.order:
+                return False
+            return pb.in_ring is None or bool(pb.in_ring) == self.bond_in_ring(x, y)
+        return pb.order == tb.order
+
+
 def reference_embeddings(p, t, scope, budget=2_000_000):
     """all maps f: pattern atoms -> target atoms with: injective; atom match; every pattern bond matches the image bond;
     no additional target bond between images of atoms of one pattern component; different pattern components in
@@ -225,9 +405,10 @@ def reference_embeddings(p, t, scope, budget=2_000_000):
     pa, ta = p._atoms, t._atoms
     pbn, tbn = p._bonds, t._bonds
     pcomp, tcomp = own_components(pbn), own_components(tbn)
+    ind = Independent(t)
     order = list(pa)
     allowed = set(ta) if scope is None else set(scope) & set(ta)
-    cand = {u: [x for x in ta if x in allowed and pa[u] == ta[x]] for u in order}
+    cand = {u: [x for x in ta if x in allowed and ind.atom(pa[u], x)] for u in order}
     res, f, used = [], {}, set()
     nodes = [0]
 
@@ -236,7 +417,7 @@ def reference_embeddings(p, t, scope, budget=2_000_000):
             pb = pbn[u].get(v)
             tb = tbn[x].get(y)
             if pb is not None:
-                if tb is None or not (pb == tb):
+                if tb is None or not ind.bond(pb, x, y):
                     return False
             elif pcomp[u] == pcomp[v]:
                 if tb is not None:
@@ -273,16 +454,17 @@ def all_injections_embeddings(p, t, scope):
     pa, ta = p._atoms, t._atoms
     pbn, tbn = p._bonds, t._bonds
     pcomp, tcomp = own_components(pbn), own_components(tbn)
+    ind = Independent(t)
     us = list(pa)
     xs = [x for x in ta if scope is None or x in set(scope)]
     res = []
     for img in itertools.permutations(xs, len(us)):
         f = dict(zip(us, img))
-        good = all(pa[u] == ta[f[u]] for u in us)
+        good = all(ind.atom(pa[u], f[u]) for u in us)
         if good:
             for u, v in itertools.combinations(us, 2):
                 pb, tb = pbn[u].get(v), tbn[f[u]].get(f[v])
-                if pb is not None and (tb is None or not (pb == tb)):
+                if pb is not None and (tb is None or not ind.bond(pb, f[u], f[v])):
                     good = False
                 elif pb is None and tb is not None and pcomp[u] == pcomp[v]:
                     good = False
@@ -368,7 +550,10 @@ HAND_SMARTS = [
     '[O;-]', '[N;+]', '[C;z2]=[O]', '[C;z3]#[N]', '[C]1[C][C]1', '[C]1[C][C][C]1', '[c]1[c][c][c][c][c]1',
     '[C;D3]([C])([C])[C]', '[C;D4]', '[S;D4]', '[P;D4;x4]', '[N;D3;a]', '[C].[C]', '[O;D1].[N]', '[C;D1][C;D2].[O;D1]',
     '[C:1]-[C:2]', '[C;D1:7][C:3]', '[13C]', '[C;h3]', '[C;h0,h1]', '[A;r3]', '[C;D2;r5;a]', '[N,O;D1][C]=[O]',
-    '[C]=[C]-[C]=[C]', '[A]:[A]:[A]', '[A]1[A][A][A][A]1', '[C][C][C][C][C][C]', '[C]([C])[C]', '[C][O][C]',
+    '[C]=[C]-[C]=[C]', '[A]:[A]:[A]', '[C]-,=;!@[C]', '[C]!=;!@[C]', '[C]!#[C]', '[C]=;@[C]', '[C]:;@[C]', '[A]~;!@[A]',
+    '[A;D1]', '[A;D2]-[A;D3]', '[A;D3;z1]', '[A;h1]', '[A;x2]', '[A;z2]=[A;x1]', '[C,N;D2]', '[C,N,O;D1;h1,h2,h3]', '[C,N;z2;x0,x1]',
+    '[C,O;r6]', '[N,O;!R]', '[M;D1]', '[M;D2,D3]', '[M]-[O,N]', '[A;+]', '[A;-]', '[C,N;+]', '[C;D2;x1;z1;h2]',
+    '[C]-,=;@[C]', '[C]!-[C]', '[A]!:;@[A]', '[C]-;!@[N,O]', '[C]-;@[N,O]', '[A]-;@[A]-;!@[A]', '[A]1-;@[A]-;@[A]1', '[C]=,#;!@[A]', '[A]1[A][A][A][A]1', '[C][C][C][C][C][C]', '[C]([C])[C]', '[C][O][C]',
 ]
 
 FRAGMENTS = ['C', 'CC', 'CCC', 'C=C', 'C=O', 'CO', 'CN', 'C(=O)O', 'C(=O)N', 'c1ccccc1', 'c1ccncc1', 'C1CC1', 'C1CCC1', 'C1CCCC1',
@@ -410,6 +595,18 @@ def without_bond(mol, n, k):
     m = rebuild(mol)
     del m._bonds[n][k]
     del m._bonds[k][n]
+    m.flush_cache()
+    m.calc_labels()
+    return m
+
+
+def with_bond_order(mol, n, k, order):
+    """copy with the order of bond n-k replaced (no valence check: the matcher does not need one)"""
+    from chython.containers.bonds import Bond
+    m = rebuild(mol)
+    b = Bond(order)
+    m._bonds[n][k] = b
+    m._bonds[k][n] = b
     m.flush_cache()
     m.calc_labels()
     return m
@@ -488,6 +685,13 @@ def gen_cases(ctx):
                     n, k2 = rng.choice(rb)
                     sub = without_bond(sub, n, k2)
                     variant = 'cut-minus-ring-bond'
+            elif rng.random() < 0.3 and sub.bonds_count:
+                # same skeleton, one bond order changed (ring bonds preferred: they may be closures of the linearisation)
+                rb = ring_bonds(sub) or [(n, k2) for n, k2, _ in sub.bonds()]
+                n, k2 = rng.choice(rb)
+                old = int(sub._bonds[n][k2])
+                sub = with_bond_order(sub, n, k2, rng.choice([o for o in (1, 2, 3, 4) if o != old]))
+                variant = 'cut-bond-order-changed'
             pat, _ = molgen.renumber(rng, sub)
             for sc in scopes(m):
                 yield f'{variant}:{tag}', {'mol': wire.mol_to_ints(pat)}, tgt(m), sc
@@ -501,8 +705,24 @@ def gen_cases(ctx):
     sm = repo_smarts()
     ctx.cov['distribution']['smarts_literals_in_repo'] = len(sm)
     pool = targets + hand
+    from chython import smarts as _smarts
     for s in sm + HAND_SMARTS:
-        for tag, m in rng.sample(pool, 2 if quick else 8):
+        try:
+            q = _smarts(s)
+        except Exception as e:
+            ctx.dist('pattern-rejected:' + type(e).__name__)
+            continue
+        # prefer targets the query actually hits (selection only; the comparison is done afterwards on both sides)
+        hits, misses = [], []
+        for tag, m in rng.sample(pool, min(len(pool), 12 if quick else 40)):
+            try:
+                hit = next(iter(q.get_mapping(m, _cython=False)), None) is not None
+            except Exception:
+                hit = False
+            (hits if hit else misses).append((tag, m))
+            if len(hits) >= (2 if quick else 6):
+                break
+        for tag, m in hits + misses[:1 if quick else 2]:
             for sc in scopes(m, extra=rng.random() < 0.3):
                 yield f'smarts:{s}', {'smarts': s}, tgt(m), sc
     # D. multi-component patterns and targets
@@ -522,6 +742,15 @@ def gen_cases(ctx):
         pa = a.substructure(connected_cut(rng, a, rng.randint(1, 3)), recalculate_hydrogens=False)
         pb = b.substructure(connected_cut(rng, b, rng.randint(1, 3)), recalculate_hydrogens=False)
         yield 'multi:cut-union', {'mol': wire.mol_to_ints(union([pa, pb]))}, tgt(t), None
+    # multi-component patterns with a scope that covers target components only partly (fixed cases + every 2/3-subset)
+    for ps, ts in (('C.O', 'CCO.OC.N'), ('C.C', 'CCC.CC'), ('CC.O', 'CCO.OCC'), ('C.O.N', 'CCO.OC.N'), ('CO.C', 'CCO.OC.N')):
+        pm, tm = molgen.parse(ps), molgen.parse(ts)
+        atoms = list(tm._atoms)
+        subsets = [[1, 4], [1, 3], [1, 2, 4], [2, 4, 6]] + [list(c) for k in (2, 3) for c in itertools.combinations(atoms, k)]
+        if quick:
+            subsets = subsets[:4] + rng.sample(subsets[4:], 6)
+        for sc in subsets:
+            yield f'multi-scope:{ps}>{ts}', {'mol': wire.mol_to_ints(pm)}, wire.mol_to_ints(tm), sc
     for s in ['[C].[C]', '[O;D1].[N]', '[C;D1][C;D2].[O;D1]']:
         for _ in range(3):
             parts = [m for _, m in rng.sample(hand, 2)]
@@ -538,6 +767,17 @@ def gen_cases(ctx):
         for te in tgts:
             tm = molgen.from_edges(list(te))
             yield f'small:{len(pe)}e/{len(te)}e', {'mol': wire.mol_to_ints(pm)}, wire.mol_to_ints(tm), None
+    # F2. the same skeletons with one double bond at every position (pattern and target): bond tests on tree edges AND closures
+    cyc = [e for e in pats if len(e) >= len({v for ed in e for v in ed})]
+    small_t = [e for e in tgts if len({v for ed in e for v in ed}) <= (4 if quick else 5)]
+    for pe in cyc:
+        for i in range(len(pe)):
+            pm = molgen.from_edges(list(pe), orders={pe[i]: 2}, calc=False)
+            pints = wire.mol_to_ints(rebuild(pm))
+            for te in small_t:
+                for j in range(-1, len(te)):
+                    tm = molgen.from_edges(list(te), orders=({} if j < 0 else {te[j]: 2}), calc=False)
+                    yield f'small-orders:{len(pe)}e/{len(te)}e', {'mol': pints}, wire.mol_to_ints(rebuild(tm)), None
     # G. ring assemblies as targets, ring fragments as patterns
     for _ in range(15 if quick else 120):
         edges = molgen.ring_assembly(rng)
@@ -576,7 +816,7 @@ def disagree(ctx, stream, detail, suspect=None):
     ctx.cov['disagreements_checked'] += 1
     ctx.broke('correspondence', stream, detail)
     if suspect is not None:
-        _state['suspects'].append(suspect)
+        _state['suspects'].append((stream, suspect))
 
 
 def stream_get_mapping(ctx):
@@ -610,6 +850,11 @@ def stream_get_mapping(ctx):
         st1, r1 = outcome(lambda: real_mappings(p, t, True, scope))
         for af, st, r in ((0, st0, r0), (1, st1, r1)):
             line, nontrivial = gm_line(p, t, af, scope)
+            ga = ga_line(p, t, af, scope)
+            if ga is not None:
+                line = ga  # compatibility evaluated by the model from attributes, not by the real __eq__
+            else:
+                ctx.dist('compat:table-mode (pattern class unknown to the model)')
             if line in seen_lines:
                 continue
             seen_lines.add(line)
@@ -860,9 +1105,44 @@ def check_input(inp):
     return property_check(p, t, inp.get('scope'))
 
 
+def reference_automorphisms(m, budget=500_000):
+    """all non-identity permutations of the atoms that keep the `_chiral_morgan` class of every atom, map every bond to an
+    equal bond (and non-bonds to non-bonds) and keep every connected component in place"""
+    cm, bonds = m._chiral_morgan, m._bonds
+    comp = own_components(bonds)
+    order = list(cm)
+    res, f, used, nodes = [], {}, set(), [0]
+
+    def ok(u, x):
+        for v, y in f.items():
+            pb, tb = bonds[u].get(v), bonds[x].get(y)
+            if (pb is None) != (tb is None) or (pb is not None and not (pb == tb)):
+                return False
+        return True
+
+    def rec(i):
+        nodes[0] += 1
+        if nodes[0] > budget:
+            raise OverflowError
+        if i == len(order):
+            if any(k != v for k, v in f.items()):
+                res.append(dict(f))
+            return
+        u = order[i]
+        for x in order:
+            if x not in used and cm[x] == cm[u] and comp[x] == comp[u] and ok(u, x):
+                f[u] = x
+                used.add(x)
+                rec(i + 1)
+                del f[u]
+                used.discard(x)
+    rec(0)
+    return res
+
+
 def automorphism_check(m):
-    """every yielded mapping is a non-identity automorphism of the labelled graph (classes = _chiral_morgan) that keeps each
-    component in place, no duplicates"""
+    """get_automorphism_mapping yields exactly the non-identity automorphisms (classes = _chiral_morgan, components kept in
+    place), each once; every yielded mapping is re-validated directly"""
     cm = m._chiral_morgan
     st, r = outcome(lambda: [dict(x) for x in itertools.islice(m.get_automorphism_mapping(), 20000)])
     if st != 'ok':
@@ -870,6 +1150,16 @@ def automorphism_check(m):
     c = canon(r)
     if len(c) != len(set(c)):
         return True, 'C07/automorphism/duplicate', 'a mapping is yielded twice'
+    if len(r) < 20000 and len(cm) <= 40:
+        try:
+            ref = canon(reference_automorphisms(m))
+        except OverflowError:
+            ref = None
+        if ref is not None and ref != c:
+            missing = [x for x in ref if x not in c]
+            extra = [x for x in c if x not in ref]
+            return True, 'C07/automorphism/' + ('missing' if missing else 'spurious'), (
+                f'{len(c)} automorphisms returned, reference has {len(ref)}; missing {missing[:1]} spurious {extra[:1]}')
     for f in r:
         if sorted(f) != sorted(cm) or sorted(f.values()) != sorted(cm) or all(k == v for k, v in f.items()):
             return True, 'C07/automorphism/not-a-permutation', str(f)
@@ -893,7 +1183,7 @@ def neighbourhood(rng, inp, k=12):
         p = make_pattern(inp['pattern'])
     except Exception:
         return
-    for _ in range(k):
+    for _ in range(k if len(t) > 2 else 0):
         atoms = connected_cut(rng, t, rng.randint(2, min(len(t), 9)))
         sub = rebuild(t.substructure(atoms, recalculate_hydrogens=False))
         sc = inp.get('scope')
@@ -977,12 +1267,23 @@ def search(ctx):
             found.add(sig)
             ctx.fail(sig, what, inp)
 
-    suspects = _state.get('suspects', [])[:40]
+    # a few suspects of every disagreeing stream (not 40 of the same one)
+    per_stream = {}
+    for stream, inp in _state.get('suspects', []):
+        per_stream.setdefault(stream, [])
+        if len(per_stream[stream]) < 8:
+            per_stream[stream].append(inp)
+    suspects = [x for group in itertools.zip_longest(*per_stream.values()) for x in group if x is not None]
     for s in suspects:
-        for inp in neighbourhood(ctx.rng, s):
-            run(inp)
-            if time.time() - t0 > budget * 0.5:
-                break
+        if time.time() - t0 > budget * 0.5:
+            break
+        try:
+            for inp in neighbourhood(ctx.rng, s):
+                run(inp)
+                if time.time() - t0 > budget * 0.5:
+                    break
+        except Exception as e:  # a neighbour that cannot be built
+            ctx.dist('search-skipped:' + type(e).__name__)
     for inp in fresh_small_cases(ctx, 400 if ctx.quick else 6000):
         if time.time() - t0 > budget:
             break
@@ -1003,6 +1304,8 @@ def probe(inp):
 
 
 def generate(ctx):
-    # no literal tables in the anchored code; the SMARTS literals of the rule tables are re-extracted on every run
-    # by `repo_smarts()` (Python side only, they are inputs, not model parts)
-    return []
+    # The anchored matcher code has no literal tables. The compatibility model the driver uses for query patterns
+    # (Model/QueryEq.lean, property C08) reads the regenerated element flags (AnyMetal) — refreshed here as well.
+    # The SMARTS literals of the rule tables are re-extracted on every run by `repo_smarts()` (inputs, not model parts).
+    from ..gen import gen_query
+    return [gen_query.generate()]
